@@ -27,6 +27,7 @@ func checkCloneComplete(c *core.Ctx) {
 	c.Rule("C12.R6", "a Clone built field by field carries every field of the source over (no field of the clone is left at its zero value or taken from a different field)", 20)
 	checkCloneLiteralAgreesWithConstructor(c)
 	checkCloneUnconditional(c)
+	checkEstimatorCloneData(c)
 	n := 0
 	for _, p := range c.LibPkgs() {
 		pkg := p
@@ -413,4 +414,90 @@ func checkCloneUnconditional(c *core.Ctx) {
 			return true
 		})
 	})
+}
+
+// checkEstimatorCloneData (C12.R9): an estimator keeps the data set it was given by SetData in a field x; Estimate reads it.
+// The mixture and HMM estimators clone their component estimators after SetData and call Estimate on the clones, so a
+// Clone has to carry x over (7 of the 10 estimators with such a field do; the rule requires it of all).
+func checkEstimatorCloneData(c *core.Ctx) {
+	c.Rule("C12.R9", "Clone of every estimator that stores its data set in a field x copies that field", 8)
+	for _, p := range c.LibPkgs() {
+		if !strings.HasSuffix(p.PkgPath, "Estimator") {
+			continue
+		}
+		pkg := p
+		info := p.TypesInfo
+		core.EachFunc(p, func(_ *ast.File, fd *ast.FuncDecl) {
+			if fd.Recv == nil || fd.Name.Name != "Clone" || len(fd.Recv.List[0].Names) == 0 {
+				return
+			}
+			robj := info.Defs[fd.Recv.List[0].Names[0]]
+			rt := robj.Type()
+			if pt, ok := rt.(*types.Pointer); ok {
+				rt = pt.Elem()
+			}
+			nt, ok := rt.(*types.Named)
+			if !ok {
+				return
+			}
+			if _, ok := nt.Underlying().(*types.Struct); !ok {
+				return
+			}
+			// a (possibly promoted) field x and a (possibly promoted) method SetData
+			fo, _, _ := types.LookupFieldOrMethod(types.NewPointer(nt), true, pkg.Types, "x")
+			if v, ok := fo.(*types.Var); !ok || !v.IsField() {
+				return
+			}
+			mo, _, _ := types.LookupFieldOrMethod(types.NewPointer(nt), true, pkg.Types, "SetData")
+			if _, ok := mo.(*types.Func); !ok {
+				return
+			}
+			// some method of the type other than SetData/Clone reads the field
+			reads := false
+			core.EachFunc(pkg, func(_ *ast.File, md *ast.FuncDecl) {
+				if md.Recv == nil || core.RecvTypeName(md) != nt.Obj().Name() || md.Name.Name == "SetData" || md.Name.Name == "Clone" {
+					return
+				}
+				ast.Inspect(md.Body, func(n ast.Node) bool {
+					if sel, ok := n.(*ast.SelectorExpr); ok && sel.Sel.Name == "x" {
+						if info.Uses[sel.Sel] == fo {
+							reads = true
+						}
+					}
+					return true
+				})
+			})
+			if !reads {
+				return
+			}
+			copied := false
+			ast.Inspect(fd.Body, func(n ast.Node) bool {
+				switch v := n.(type) {
+				case *ast.AssignStmt:
+					for i, l := range v.Lhs {
+						if sel, ok := l.(*ast.SelectorExpr); ok && sel.Sel.Name == "x" && i < len(v.Rhs) {
+							if rs, ok := ast.Unparen(v.Rhs[i]).(*ast.SelectorExpr); ok && rs.Sel.Name == "x" {
+								copied = true
+							}
+						}
+						// whole-object copy: r := *obj
+						if i < len(v.Rhs) {
+							if st, ok := ast.Unparen(v.Rhs[i]).(*ast.StarExpr); ok {
+								if id, ok := st.X.(*ast.Ident); ok && info.Uses[id] == robj {
+									copied = true
+								}
+							}
+						}
+					}
+				case *ast.KeyValueExpr:
+					if id, ok := v.Key.(*ast.Ident); ok && id.Name == "x" {
+						copied = true
+					}
+				}
+				return true
+			})
+			c.Check(copied, "C12.R9", pkgRel(pkg)+"("+nt.Obj().Name()+").Clone", "data set field x copied", fd.Pos(),
+				"the estimator keeps its data set in the field x, Estimate reads it, but Clone does not copy it: a clone taken after SetData (as the mixture and HMM estimators do with their components) fails in Estimate with a nil data set")
+		})
+	}
 }
